@@ -54,6 +54,7 @@ type session struct {
 	closed     bool
 	silent     bool // Engine.Exec private connection: no journal, no faults
 	lastID     int64
+	pending    *Rows // the result set the connection is still busy with (see Conn.query)
 }
 
 // outcome is the result of one statement.
@@ -379,6 +380,13 @@ func (s *session) execPiece(ctx context.Context, p *piece, args []interface{}) (
 	defer e.mu.Unlock()
 	if s.closed {
 		return nil, driver.ErrBadConn
+	}
+	if s.pending != nil {
+		if !s.pending.drained && e.strictBusy {
+			e.record(s, "busy", "", p.text, args, driver.ErrBadConn, 0, s.tx != nil)
+			return nil, driver.ErrBadConn
+		}
+		s.pending = nil
 	}
 	inTxn := s.tx != nil
 	defer func() {
